@@ -171,6 +171,13 @@ def io_trouble(c):
         c["log"][0] in "budr" or c["lim"] > 0 or c["out"] == "xL" or c["log"] == "xL" or ("c" in c["modes"] and c["cy"] == "xL")
 
 
+def write_trouble(c):
+    """an obstacle that lets a sink be OPENED and makes WRITES to it fail (a full device, a size limit, a reader that goes away) - as
+    opposed to a path that cannot be created (missing parent, a directory, no permission, a symlink loop): there the tool fails
+    before the first report byte (c20_uncreatable_sink_no_report), so bytes on the primary output are not the known finding F-C20d"""
+    return c["out"][0] in "uf" or ("c" in c["modes"] and c["cy"][0] == "u") or c["stdout"][0] in "up" or c["lim"] > 0
+
+
 def has_prestate(cls):
     return (cls[0] == "x" and cls != "xL") or cls[0] == "q"
 
@@ -809,7 +816,7 @@ class C20(PropBase):
                     continue                   # judged on the primary output below / above
                 midreport = ""
                 want = sec if nm == "the cyborg file" else prim
-                if io_trouble(c) and lib in ("O", "P") and isinstance(s, tuple) and (ldi_unpredictable or ({want, str(want) + "<"} & s[2])):
+                if write_trouble(c) and lib in ("O", "P") and isinstance(s, tuple) and (ldi_unpredictable or ({want, str(want) + "<"} & s[2])):
                     # F-C20c: the printers stream; an io error after the first bytes cannot take them back
                     midreport = " (io error after report bytes were streamed)"
                 return "status 1 but %d bytes of report on %s%s" % (sink_len(s), nm, midreport)
